@@ -19,20 +19,38 @@
 From LP Require Import Prelude.Py Cli.DeliverModel Cli.DeliverProofs.
 From LP Require Import Explicit.Base Gen.GlobalProfiler Explicit.GlobalProfiler.
 
-(* For ALL streams, outcomes and modes: the trace of main contains exactly one
-   dump_stats(outfile), no program event follows it, every program event precedes
-   it, the dumped snapshot is the profiler state after the whole executed stream,
-   SystemExit / KeyboardInterrupt are absorbed and an exception still propagates. *)
+(* For ALL streams, outcomes, modes and states in which the program leaves
+   sys.stdout (usable, None, or a stream that cannot be written to): the trace of
+   main contains exactly one dump_stats(outfile), nothing that can raise on the
+   program's stdout precedes it, no program event follows it, every program event
+   precedes it, the dumped snapshot is the profiler state after the whole executed
+   stream; SystemExit / KeyboardInterrupt are absorbed, an exception still
+   propagates, and with an unusable stdout main ends in the I/O error of its own
+   closing print - after the dump. *)
 Theorem C06_dump_on_every_outcome :
-  forall (stream : list pev) (kd : kind) (reg : Z -> bool) (ctx timed : bool) (outfile : string),
-    let '(tr, oc, st) := kern_run stream kd reg ctx timed outfile in
+  forall (stream : list pev) (kd : kind) (reg : Z -> bool) (out : ostate) (ctx timed : bool) (outfile : string),
+    let '(tr, oc, st) := kern_run stream kd reg out ctx timed outfile in
     one_dump_after_program tr = true
     /\ count_eff is_dump tr = 1
+    /\ no_failure_before_dump tr = true
     /\ dumped_state tr = Some (outfile, prof_run reg pst0 stream)
     /\ program_events tr = stream
-    /\ oc = (match kd with KExc => ORaised KExc | _ => ONormal end)
+    /\ oc = (match out with
+             | OutBroken => OIOError
+             | _ => match kd with KExc => ORaised KExc | _ => ONormal end
+             end)
     /\ st = prof_run reg pst0 stream.
 Proof. exact dump_on_every_outcome. Qed.
+
+(* The order inside the finally block is what delivers the results: a block that
+   first flushed the program's stdout would, for a stdout that is None or cannot be
+   written to, perform NO dump at all - for every program, outcome and mode. *)
+Theorem C06_flush_before_dump_would_lose_results :
+  forall (stream : list pev) (kd : kind) (reg : Z -> bool) (out : ostate) (ctx timed : bool) (outfile : string),
+    out <> OutOk ->
+    let '(tr, oc, _) := exec stream kd reg out (kern_main_flush_first ctx timed outfile) pst0 in
+    count_eff is_dump tr = 0 /\ oc = OIOError.
+Proof. exact flush_first_loses_results. Qed.
 
 (* The content of that snapshot: for every well-nested full run `prog`, EVERY
    termination point k and kind, the state after the executed events (the first k
@@ -76,20 +94,35 @@ Proof. exact content_nonvacuous. Qed.
    `show` is registered with atexit; whatever way the program ends, the process
    trace is the program's events, then that one show, which emits exactly the
    switched-on outputs under the configured prefix with the profiler state of the
-   whole executed stream (whose content C06_content describes). *)
-Theorem C06_explicit_atexit :
+   whole executed stream (whose content C06_content describes) - PROVIDED the
+   program leaves a sys.stdout that can be written to, or the stdout report is
+   switched off: the full statement is refuted below. *)
+Theorem C06_explicit_atexit_partial :
   forall (environ : string -> option string) (argv : list string) (ops : list op)
-         (wc : write_config) (ts : string) (stream : list pev) (kd : kind) (reg : Z -> bool),
+         (wc : write_config) (ts : string) (stream : list pev) (kd : kind) (reg : Z -> bool) (out : ostate),
     user_history ops = true ->
     spec_active (requestedb (environ "LINE_PROFILE") argv) None ops = true ->
+    out = OutOk \/ w_stdout wc = false ->
     let s' := snd (run environ argv gp_init ops) in
     let prefix := spec_prefix init_output_prefix ops in
     let st := prof_run reg pst0 stream in
     f_atexit s' = 1
-    /\ explicit_run stream kd reg (map hook_outputs (at_exit s' wc ts))
+    /\ explicit_run stream kd reg out (map hook_outputs (at_exit s' wc ts))
        = (map FProg stream ++ raise_eff kd ++ [FShow (emitted_codes (expected_outputs wc prefix ts)) st],
           program_outcome kd, st).
 Proof. exact explicit_atexit. Qed.
+
+(* FINDING: show() prints the report to sys.stdout BEFORE it writes the files; a
+   program that ends with sys.stdout = None / closed / not writable makes the exit
+   hook raise in that first step and no output is written. *)
+Theorem C06_explicit_stdout_unusable_refuted :
+  exists environ argv ops wc ts stream kd reg out,
+    user_history ops = true
+    /\ spec_active (requestedb (environ "LINE_PROFILE") argv) None ops = true
+    /\ out <> OutOk /\ w_stdout wc = true /\ w_lprof wc = true
+    /\ count_eff is_show (fst (fst (explicit_run stream kd reg out
+                                      (map hook_outputs (at_exit (snd (run environ argv gp_init ops)) wc ts))))) = 0.
+Proof. exact explicit_stdout_broken_refuted. Qed.
 
 Theorem C06_explicit_nonvacuous :
   user_history [OpDecorate (Fn 1); OpDecorate (Fn 2)] = true
